@@ -16,8 +16,14 @@ HSM-CONTENT.O6-lca : where trans_ returns index r, an identity test between A(cu
                      transition the pair of parents: the source is exited and re-entered).
 HSM-CONTENT.O7-noraise : every raise statement in dispatch/trans_ is unreachable in the abstract semantics of protocol-following charts
                      (answers are never None, a parent differs from its child, an init target lies inside the state that takes it).
-Not decided: that branches (a)-(g) select the *least* common ancestor for every pair (S, T) - functional correctness of a search
-over a runtime tree.
+HSM-CONTENT.O6-min : the tested common state is the innermost one: at every passing common-ancestor test for depths (m, q) either m is the
+                     source, or q is the target, or A(current, m-1) and A(target, q-1) were compared on this path and differ (in a tree that
+                     excludes every lower common ancestor).  Ghost records of "depth c differs from target depths lo..hi" carry the failed tests.
+HSM-CONTENT.O6-cover: a state that is exited before any common-ancestor test has passed (it is given up as a candidate) has been compared with
+                     every collected ancestor of the target (record lo == 0, hi == frontier), and the collection ended at the outermost state (the
+                     last SUPER query was not answered SUPER).  With O6-exit (the climb moves one level per exit) this is the safety half of "the
+                     search finds the common ancestor": the outermost state is on both chains, is in the buffer, and is compared with every candidate.
+Not decided as such: termination (a liveness statement); it follows from the obligations above for finite charts and is argued in DESIGN 9.8.
 """
 from sa import hsmrules
 
@@ -41,14 +47,18 @@ def check(run, model, tier):
     run.rule('HSM-CONTENT.O5-content', 'ENTRY is sent only through slots at or below the content frontier K (slots 0..K hold the 0..K-th ancestors of the target)')
     run.rule('HSM-CONTENT.O6-exit', 'every EXIT call goes to the state of the active chain at depth NX (NX = exits made so far in the step): exits climb from the current state one level at a time')
     run.rule('HSM-CONTENT.O6-lca', 'where the entry-path routine returns r: a state of the active chain at depth m was tested equal to the target\'s ancestor at depth q, NX == m and r == q-1 (parents for source == target)')
+    run.rule('HSM-CONTENT.O6-min', 'where a common-ancestor test passes for depths (m, q): m is the source, or q is the target, or the states at depths (m-1, q-1) were compared and differ - so no lower common ancestor exists (the common state is the innermost one)')
+    run.rule('HSM-CONTENT.O6-cover', 'a state exited before any common-ancestor test has passed was compared with every ancestor of the target (slots 0..frontier), and the ancestor path ends at the outermost state')
     run.rule('HSM-CONTENT.O9-init', 'INIT is sent to the current target (ghost depth 0), the state whose entry was the last one made')
     run.rule('HSM-CONTENT.O7-noraise', 'no raise statement of dispatch/trans_ is reachable by a chart that follows the handler protocol: a well-formed transition is never aborted half-way')
-    cc = hsmrules.record_content_obligations(run, model, 'dispatch', cursor_at_entry=False, kinds={'O4-content', 'O5-content', 'O6-exit', 'O6-lca', 'O7-noraise', 'O9-init'})
+    cc = hsmrules.record_content_obligations(run, model, 'dispatch', cursor_at_entry=False, kinds={'O4-content', 'O5-content', 'O6-exit', 'O6-lca', 'O6-min', 'O6-cover', 'O7-noraise', 'O9-init'})
     run.floor('content store obligations in dispatch+trans_', cc['O4-content'], 5)
     run.floor('content entry obligations in dispatch', cc['O5-content'], 2)
     run.floor('exit obligations in dispatch+trans_', cc['O6-exit'], 4)
     run.floor('common-ancestor obligations where trans_ returns', cc['O6-lca'], 1)
     run.floor('INIT sites in dispatch', cc['O9-init'], 1)
+    run.floor('common-ancestor tests judged for minimality', cc['O6-min'], 5)
+    run.floor('exits of a candidate judged for complete comparison', cc['O6-cover'], 2)
     run.floor('raise statements in dispatch+trans_ proved unreachable for protocol-following charts', cc['O7-noraise'], 5)
     n = hsmrules.entry_loops(run, model, 'dispatch')
     run.floor('entry loops in dispatch', n, 2)
